@@ -126,6 +126,8 @@ func runC11(p *Program, r *Report) {
 	checkSortBeforeReturn(p, r, a)
 	checkDestroyPreState(p, r, a)
 	checkDelData(p, r, a)
+	r.Rule("R11f", "SUCCESS-RETURNS-DATA: every success return of the verifier-state update hands out the UpdateData whose fields were all stored")
+	checkSuccessReturnsData(p, r, "R11f")
 }
 
 // checkMustRecord: R11a (also R07b).
@@ -467,6 +469,10 @@ func runC07(p *Program, r *Report) {
 		return
 	}
 	r.Discharge("R07c", key, posOf(p, add.call), "remove phase dominates the add phase, which receives the remove phase's result", true)
+	r.Rule("R07d", "NO-ARITHMETIC-POSITIONS: in the add phase of the cached-proof update no position list computed from the leaf count selects from the update-data nodes (remembered leaves are found by hash)")
+	if g := add.call.Common().StaticCallee(); g != nil {
+		checkNoArithmeticPositions(p, r, "R07d", g)
+	}
 }
 
 // collectUDFields records which UpdateData fields (of parameter udParam) v is built from.
